@@ -225,6 +225,15 @@ func (v *Verifier) addrOf(s *State, e ast.Expr) *Term {
 				}
 			}
 		}
+		if sel != nil && sel.Kind() == types.FieldVal {
+			if _, isStruct := v.typeOf(x).Underlying().(*types.Struct); isStruct {
+				val := v.eval(s, x)
+				ref := v.allocRef(s)
+				v.storePtr(s, ref, v.typeOf(x), val)
+				s.snaps = append(s.snaps, &snapshot{ref: ref, t: v.typeOf(x), val: val, expr: x, pos: x.Pos()})
+				return ref
+			}
+		}
 		unsupported("address of field %s", x.Sel.Name)
 	case *ast.IndexExpr:
 		unsupported("address of element")
@@ -1105,7 +1114,7 @@ func (v *Verifier) window(s *State, arr, off, n *Term) *Term {
 		rev := Forall([]*Term{a}, Implies(And(Le(off, a), Lt(a, Add(off, n))), Eq(Select(w, Sub(a, off)), Select(arr, a))), mk("select", es, arr, a))
 		ax = And(ax, rev)
 	}
-	wi := &winInfo{c: w, axiom: ax, kind: "len|" + s.normInt(n).String()}
+	wi := &winInfo{c: w, axiom: ax, kind: "len|" + s.normKey(n).String()}
 	v.windows[key] = wi
 	s.pc = append(s.pc, ax)
 	v.extLemmas(s, wi)
